@@ -590,7 +590,7 @@ func collectParams(expr ast.Expr, site *funcSite, scope *types.Scope, pkgScope *
 			}
 			seen[nm] = true
 			switch {
-			case nm == "it_i" || nm == "it_n":
+			case nm == "it_i" || nm == "it_n" || nm == "it_o":
 				params = append(params, ClauseParam{Name: nm, Kind: nm})
 				ptypes = append(ptypes, "int")
 				return true
